@@ -104,6 +104,17 @@ def make_case(case, ctx):
                 spec, feats, risk = gen.gen_net(rnd, pool=gen.SAFE_POOL, n_nodes=rnd.choice([1, 2, 3]), max_types=2,
                                                 depth=rnd.choice([0, 0, 1]), forbid=ctx['excluded'], funcs=tuple(funcs))
                 info = None
+                if rnd.random() < 0.3:
+                    # element-wise maximum / minimum of two expressions of the state variables inside a differential equation
+                    from vp import expr as E
+                    oname = rnd.choice(sorted(spec['ops']))
+                    des_ = [e_ for e_ in spec['ops'][oname]['eqs'] if e_[0] == 'de']
+                    if des_:
+                        e_ = rnd.choice(des_)
+                        st_ = [x_[1] for x_ in des_]
+                        term = E.mul(E.num(E.rnd_coef(rnd)), E.call(rnd.choice(['maxi', 'mini']), E.bounded(rnd, st_, 1, FUNCS),
+                                                                   E.bounded(rnd, st_, 1, FUNCS) if rnd.random() < 0.7 else E.num(E.rnd_coef(rnd))))
+                        e_[2] = E.tolist(E.add(E.fromlist(e_[2]), term))
             else:
                 spec, info = c10.gen_dde(rnd, None, int_delays=rnd.random() < 0.3)
                 if info['n_delays'] < 1:
@@ -268,6 +279,8 @@ def run_case(case, ctx):
                 inv = {p: '/'.join(k) for k, p in pos.items()}
                 raise observe.Mismatch(f"J[{i},{j}] = d({inv.get(i)})/d({inv.get(j)}) is {J0[i, j]!r}, central differences of the "
                                        f"vector field give {Jfd[i, j]!r} (functions in model: {fs})")
+            if set(fs) & {'maxi', 'mini'}:
+                mech['models_with_maxi_mini'] = 1
             mech['entries_compared'] = mech.get('entries_compared', 0) + n * n
             off = int(np.sum(np.abs(Jfd - np.diag(np.diag(Jfd))) > 1e-9))
             mech['offdiag_nonzero_entries'] = mech.get('offdiag_nonzero_entries', 0) + off
